@@ -1,3 +1,4 @@
+import XgcmModel.Model.TransformGuards
 import XgcmModel.Model.Linear
 import XgcmModel.Proofs.Conservative
 /-
@@ -304,6 +305,21 @@ theorem log_mask_below (L : K → K) (hL : ∀ a b, a < b → L a < L b) (phi th
   have h := mask_below phi (theta.map L) (L lev) (L a) (r.map L) (by simp [hth])
     (map_inc L hL theta hinc) (by simpa using hlen)
   exact ⟨fun hl => h.1 (hL _ _ hl), h.2⟩
+
+/-- **The new dimension is named after the target, or after target_data for a bare array.** -/
+theorem new_dimension_name (d : String) (tdata : Option (Option String)) (axisDim : String) :
+    transformDimName (.oneDim d) none tdata axisDim = some d ∧
+    (∀ k td, transformDimName k (some td) tdata axisDim = some td) ∧
+    (∀ n, transformDimName .bare none (some (some n)) axisDim = some n) ∧
+    transformDimName .bare none none axisDim = some axisDim ∧
+    transformDimName .bare none (some none) axisDim = some "TRANSFORMED_DIMENSION" := by
+  refine ⟨rfl, fun k td => rfl, fun n => rfl, rfl, rfl⟩
+
+/-- **The result is named after the input plus the suffix.** -/
+theorem result_name (n sfx : String) (hn : n ≠ "") :
+    transformResultName (some n) (some sfx) = some (n ++ sfx) ∧
+    transformResultName (some n) none = some (n ++ "_transformed") := by
+  simp [transformResultName, hn]
 
 /-- non-vacuity -/
 example : Inc ([0, 1, 3] : List Rat) ∧ 2 ≤ ([0, 1, 3] : List Rat).length := by
